@@ -57,6 +57,7 @@ type PathStats struct {
 	Merges      int
 	SimpQueries int
 	IntervalDecided int
+	IntervalDischarged int
 	Reached     map[string]bool
 	Funcs       map[string]int
 	Samples     []string
@@ -409,6 +410,12 @@ func (p *Path) obligation(ok *Term, kind, tag, msg string) {
 		return
 	}
 	p.st.Obligations++
+	if kind == "panic" && !p.noIntervals && p.decide(ok, 0) == 1 {
+		// implicit-panic obligation decided by (sound) interval arithmetic over the path condition
+		p.st.Discharged++
+		p.st.IntervalDischarged++
+		return
+	}
 	neg := p.tc.Not(ok)
 	var v *Violation
 	r, _, errtxt := p.solver.CheckWithModel(neg, func(get func([]*Term) []uint64) {
